@@ -170,7 +170,13 @@ def snapshot_globals() -> dict:
                 continue
             if isinstance(val, type) and getattr(val, "__module__", None) == name:
                 if hasattr(val, "__mapper__") or hasattr(val, "__tablename__") or hasattr(val, "metadata"):
-                    continue  # SQLAlchemy declarative classes: instrumented attributes, not caches
+                    # SQLAlchemy declarative classes: instrumented attributes must not be touched; plain
+                    # containers kept on the class (caches) are restored in place
+                    for cattr, cval in list(vars(val).items()):
+                        if cattr.startswith(("__", "_sa_")) or not isinstance(cval, (dict, list, set)):
+                            continue
+                        snap[(name, attr, cattr)] = ("m", _snap_value(cval)[1])
+                    continue
                 for cattr, cval in list(vars(val).items()):
                     if cattr.startswith("__") or callable(cval) or isinstance(
                             cval, (classmethod, staticmethod, property)):
@@ -204,6 +210,15 @@ def restore_globals(counter: dict | None = None) -> list[str]:
             cur = getattr(owner, attr) if clsname is None else vars(owner).get(attr)
         except AttributeError:
             cur = None
+        if kind == "m":
+            if type(cur) is type(val) and cur != val:
+                cur.clear()
+                (cur.extend if isinstance(cur, list) else cur.update)(type(val)(val))
+                label = f"{modname}.{clsname}.{attr}"
+                changed.append(label)
+                if counter is not None:
+                    counter[label] = counter.get(label, 0) + 1
+            continue
         if kind == "v":
             same = cur is val or (type(cur) is type(val) and cur == val)
             new = val
